@@ -17,7 +17,8 @@ func LockKey(v ssa.Value) string {
 		if st == nil {
 			return ""
 		}
-		return NamedOf(x.X.Type()) + "." + FieldName(st, x.Field)
+		b, prefix := promotedBaseName(x.X)
+		return NamedOf(b.Type()) + "." + prefix + FieldName(st, x.Field)
 	case *ssa.Alloc:
 		return "cell:" + x.Comment
 	case *ssa.Global:
